@@ -143,14 +143,49 @@ def tables_by_evaluation(prog, g):
                 elif not (isinstance(r, Adt) and r.vname == "None"):
                     return None
         if not _only_equality_on_descriptor(prog, MM + g + "::to_id"):
+            _REFUSED[g] = _WHY[0]
             return None
         return ts, ti, "to_sig: 256 ids evaluated, %d entries; to_id: %d descriptor classes evaluated, %d entries" % (len(ts), n_eval, len(ti))
     except (bitsem.Undecided, bitsem.Panic, StopIteration, RecursionError, KeyError, AttributeError, TypeError):
         return None
 
 
+_W = {"u8": 8, "i8": 8, "u16": 16, "i16": 16, "u32": 32, "i32": 32, "char": 32, "u64": 64, "i64": 64, "usize": 64, "isize": 64, "u128": 128, "i128": 128,
+      "bool": 1}
+
+
+def _ty_width(ty):
+    if not isinstance(ty, dict):
+        return None
+    if ty.get("bits"):
+        return 64 if ty["bits"] in ("size", 0) else int(ty["bits"])
+    n = ty.get("name") or ty.get("k")
+    return _W.get(n)
+
+
+def _place_ty(f, place):
+    ty = f.rec["locals"][place["local"]]
+    if isinstance(ty, dict) and "ty" in ty and "k" not in ty:
+        ty = ty["ty"]
+    for p in place["proj"]:
+        k = p["k"]
+        if k == "deref":
+            ty = ty.get("to", {"k": "other"})
+        elif k == "field":
+            ty = p.get("ty", {"k": "other"})
+        elif k in ("index", "constindex"):
+            ty = ty.get("elem", {"k": "other"})
+    return ty
+
+
+_REFUSED = {}
+_WHY = [""]
+
+
 def _only_equality_on_descriptor(prog, path):
-    """to_id and the closures / derived eq it uses apply only ==, != and field reads to values (no ordering, arithmetic or hashing)"""
+    """to_id and the closures / derived eq it uses apply only ==, != and field reads to values (no ordering, arithmetic or hashing), and no
+    conversion that identifies distinct values (a narrowing cast such as `attr as u8` merges U+0143 with 'C': then the classes induced by the
+    compared constants are not the classes the function distinguishes, and evaluation on representatives decides nothing)"""
     seen = set()
     st = [path]
     while st:
@@ -162,9 +197,20 @@ def _only_equality_on_descriptor(prog, path):
         for blk in f.rec["blocks"]:
             for s_ in blk["stmts"]:
                 if s_["k"] == "assign" and s_["rv"]["k"] == "binop" and s_["rv"]["op"] not in ("Eq", "Ne", "BitAnd", "BitOr"):
+                    _WHY[0] = "%s applies %s to a value (line %s)" % (p, s_["rv"]["op"], (s_.get("loc") or {}).get("line"))
                     return False
                 if s_["k"] == "assign" and s_["rv"]["k"] == "aggregate" and s_["rv"].get("agg") == "closure":
                     st.append(s_["rv"]["path"])
+                if s_["k"] == "assign" and s_["rv"]["k"] == "cast" and not str(s_["rv"].get("kind", "")).startswith("PointerCoercion"):
+                    o = s_["rv"]["op"]
+                    if o["k"] == "const":
+                        continue
+                    src = _ty_width(_place_ty(f, o["place"])) if o["k"] in ("copy", "move") else None
+                    dst = _ty_width(s_["rv"].get("ty"))
+                    if src is None or dst is None or dst < src:
+                        _WHY[0] = "%s converts a %s-bit value to %s bits before comparing (line %s): distinct descriptors become equal" % (
+                            p, src, dst, (s_.get("loc") or {}).get("line"))
+                        return False
             t = blk["term"]
             if t["k"] == "call":
                 c = t.get("resolved") or t["callee"]
@@ -197,6 +243,9 @@ def rule_tables(prog, res, oracle_path):
                 res.ob("Y-tab", "%s | tables obtained by evaluating to_sig on every id 0..=255 and to_id on every class of descriptors its comparisons can distinguish" % g,
                        True, note, prog.fn(MM + g + "::to_sig").loc)
             else:
+                if g in _REFUSED:
+                    res.ob("Y-tab", "%s::to_id | touches the descriptor only through ==, != and value-preserving conversions" % (MM + g), False,
+                           _REFUSED[g], prog.fn(MM + g + "::to_id").loc)
                 ts = extract_to_sig(prog, res, MM + g + "::to_sig", "Y-tab")
                 ti = extract_to_id(prog, res, MM + g + "::to_id", "Y-tab")
         else:
